@@ -85,7 +85,15 @@ func (o TOpts) zopts() []z.TestOption {
 	if o.Path != nil {
 		out = append(out, z.IssuePath(*o.Path))
 	}
-	if o.Msg != nil {
+	if o.MsgFromParams {
+		out = append(out, z.MessageFunc(func(e *z.ZogIssue, _ z.Ctx) {
+			kv := map[string]string{}
+			for k, v := range e.Params {
+				kv[k] = fmt.Sprintf("%v", v)
+			}
+			e.SetMessage(RenderParams(kv))
+		}))
+	} else if o.Msg != nil {
 		if len(*o.Msg)%2 == 1 {
 			// the same option spelled as a MessageFunc
 			msg := *o.Msg
